@@ -269,6 +269,91 @@ impl NsBox {
     pub fn get(&self) -> &'static Namespace<'static> {
         unsafe { &*self.ptr }
     }
+    /// a namespace over other rows (C14-T)
+    pub fn from_rows(mode: hooks::Mode, rows: &[Tags]) -> NsBox {
+        hooks::set_mode(mode);
+        hooks::set_shim_config(hooks::ShimConfig { shards: SHARDS, shard_of, lock_base: 0 });
+        let ns = Namespace::make(grid_of(rows));
+        hooks::set_mode(hooks::Mode::Real);
+        NsBox { ptr: Box::into_raw(Box::new(ns)) }
+    }
+}
+
+/// the scenario with a different taxonomy under the same names: d is only a b, b is a root,
+/// the relationship is not transitive, the associations point elsewhere, other prototypes
+pub fn scenario_rows_variant() -> Vec<Tags> {
+    let mut rows = scenario_rows();
+    let set = |rows: &mut Vec<Tags>, name: &str, key: &str, val: Option<V>| {
+        for r in rows.iter_mut() {
+            if r.iter().any(|(k, v)| k == "def" && matches!(v, V::Sym(n) if n == name)) {
+                r.retain(|(k, _)| k != key);
+                if let Some(v) = &val {
+                    r.push((key.to_string(), v.clone()));
+                }
+                r.sort_by(|a, b| a.0.cmp(&b.0));
+            }
+        }
+    };
+    set(&mut rows, "d", "is", Some(sym_list(&["b"])));
+    set(&mut rows, "b", "is", Some(sym_list(&[])));
+    set(&mut rows, "rel", "transitive", None);
+    set(&mut rows, "t1", "tagOn", Some(sym_list(&["entity"])));
+    set(&mut rows, "t2", "tagOn", Some(sym_list(&["a", "d"])));
+    set(&mut rows, "q1", "quantityOf", Some(sym_list(&["d"])));
+    set(&mut rows, "m2", "is", Some(sym_list(&["c"])));
+    set(&mut rows, "plant", "children", Some(V::List(vec![V::dict(&[("eq", V::Marker)])])));
+    set(&mut rows, "plant", "childrenFlatten", Some(sym_list(&["entity"])));
+    set(&mut rows, "b-c", "is", Some(sym_list(&["a"])));
+    rows
+}
+
+/// C14-T: two namespaces with the same def names and different taxonomies, alive together and
+/// queried alternately (one scheduled thread over the Shim): q_i on the first, q_j on the second,
+/// q_i on the second, q_j on the first. Returns the four answers.
+fn two_namespace_history(i: usize, j: usize, part: &Arc<Partition>) -> Result<Vec<String>, String> {
+    let (b1, b2) = (NsBox::new(hooks::Mode::Shim), NsBox::from_rows(hooks::Mode::Shim, &scenario_rows_variant()));
+    let (n1, n2) = (b1.get(), b2.get());
+    let p2 = part.clone();
+    let body: Box<dyn FnOnce() -> Vec<String> + Send> = Box::new(move || {
+        let qs = queries();
+        vec![run_query(n1, &qs[i]), run_query(n2, &qs[j]), run_query(n2, &qs[i]), run_query(n1, &qs[j])]
+    });
+    let setup: Arc<dyn Fn() + Send + Sync> = Arc::new(move || PARTITION.with(|x| *x.borrow_mut() = p2.clone()));
+    let (ex, _ch) = run_threads(Chooser::replaying(vec![]), vec![body], setup);
+    if let Some(d) = ex.deadlock {
+        return Err(d);
+    }
+    ex.results.into_iter().next().unwrap()
+}
+
+fn cold_answers_variant(part: &Arc<Partition>) -> Result<Vec<String>, String> {
+    let n = queries().len() - EXTRA;
+    (0..n)
+        .map(|i| {
+            let b = NsBox::from_rows(hooks::Mode::Shim, &scenario_rows_variant());
+            let ns = b.get();
+            let p2 = part.clone();
+            let body: Box<dyn FnOnce() -> String + Send> = Box::new(move || run_query(ns, &queries()[i]));
+            let setup: Arc<dyn Fn() + Send + Sync> = Arc::new(move || PARTITION.with(|x| *x.borrow_mut() = p2.clone()));
+            let (ex, _ch) = run_threads(Chooser::replaying(vec![]), vec![body], setup);
+            if let Some(d) = ex.deadlock {
+                return Err(d);
+            }
+            ex.results.into_iter().next().unwrap()
+        })
+        .collect()
+}
+
+fn two_namespace_case(i: usize, j: usize, cold: &[String], cold2: &[String], part: &Arc<Partition>) -> Verdict {
+    let a = with_partition(part, || two_namespace_history(i, j, part)).map_err(|e| ("history-panic:two-namespaces".to_string(), e))?;
+    let want = [&cold[i], &cold2[j], &cold2[i], &cold[j]];
+    for (k, (got, w)) in a.iter().zip(want.iter()).enumerate() {
+        if got != *w {
+            let qs = queries();
+            return Err(("other-namespace-changes-answer".into(), format!("two namespaces alive (same names, different taxonomies), queries {:?} and {:?} alternately: answer #{k} is {got:?}, that namespace alone answers {w:?}", qs[i], qs[j])));
+        }
+    }
+    Ok(())
 }
 impl Drop for NsBox {
     fn drop(&mut self) {
@@ -769,7 +854,7 @@ fn free_running_params(job: &str) -> (usize, u64) {
 
 pub fn run(tier: Tier) -> i32 {
     let mut run = Run::new("C14", tier, "model_checking");
-    run.rule = "subject: the real Namespace code over the hook shim. C14-H (E3): breadth-first search from the cold namespace; transition = one of 40 concrete queries (supertypes_of, all_supertypes_of, inheritance, fits and its four wrappers, reflect, Reflection::fits, def_of_dict, tags, is, tag_on, implementation, protos with flattened children, all_subtypes_of, has_relationship with cyclic refs) on a 22-def scenario namespace (two computed associations) (diamond, conjunct, entity, transitive relationship, reciprocal association, children prototypes) rebuilt by replaying the history; state = cache snapshot; to closure; every answer = cold answer = graph answer; run on the genuine DashMap (isolated child, watchdog) and on the Shim (single scheduled thread, all keys in one shard, so a self-deadlock is seen): both transition graphs must be identical. C14-P: every ordered pair of queries (thorough: every triple) and every query after 12 repetitions of every other one, from the cold namespace, independent of cache snapshots (hidden memos). C14-V: every query after 1100 / 2200 look-ups of symbols no def names (volume: more entries than any fixed cache bound) still gives its cold answer. C14-S (E4+E2): scenarios (a) 2 threads x 1 query, all 55 unordered pairs of a 10-query core, from the cold state, from warm states and after the volume warm-up; (b) 2 threads x 2 queries; (c) 3 threads x 1 query, all 220 multisets; for the two extreme shard partitions (thorough: every partition of the touched supertypes keys); every schedule with <= b preemptions (scheduling points: every shard-lock acquisition, thread start/exit). Oracle per execution: no deadlock, no panic, every answer equals the answer given alone, every final cache entry occurs in the sequential closure. C14-F (supplementary, NOT exhaustive — a free-running pass for shared state reached without a shard lock, which the cooperative scheduler cannot preempt): 2 / 8 (thorough 2 / 4 / 16) OS threads answer all queries over one shared namespace with the genuine DashMap for 1.2-1.5 s (thorough 6-15 s), every answer compared with the answer given alone. states = cache states of C14-H + scenario configurations, transitions = history steps + schedules executed".into();
+    run.rule = "subject: the real Namespace code over the hook shim. C14-H (E3): breadth-first search from the cold namespace; transition = one of 40 concrete queries (supertypes_of, all_supertypes_of, inheritance, fits and its four wrappers, reflect, Reflection::fits, def_of_dict, tags, is, tag_on, implementation, protos with flattened children, all_subtypes_of, has_relationship with cyclic refs) on a 22-def scenario namespace (two computed associations) (diamond, conjunct, entity, transitive relationship, reciprocal association, children prototypes) rebuilt by replaying the history; state = cache snapshot; to closure; every answer = cold answer = graph answer; run on the genuine DashMap (isolated child, watchdog) and on the Shim (single scheduled thread, all keys in one shard, so a self-deadlock is seen): both transition graphs must be identical. C14-P: every ordered pair of queries (thorough: every triple) and every query after 12 repetitions of every other one, from the cold namespace, independent of cache snapshots (hidden memos). C14-T: two namespaces with the same def names and different taxonomies alive together, every ordered pair of queries alternately on the one and the other (state keyed by name outside the namespace object). C14-V: every query after 1100 / 2200 look-ups of symbols no def names (volume: more entries than any fixed cache bound) still gives its cold answer. C14-S (E4+E2): scenarios (a) 2 threads x 1 query, all 55 unordered pairs of a 10-query core, from the cold state, from warm states and after the volume warm-up; (b) 2 threads x 2 queries; (c) 3 threads x 1 query, all 220 multisets; for the two extreme shard partitions (thorough: every partition of the touched supertypes keys); every schedule with <= b preemptions (scheduling points: every shard-lock acquisition, thread start/exit). Oracle per execution: no deadlock, no panic, every answer equals the answer given alone, every final cache entry occurs in the sequential closure. C14-F (supplementary, NOT exhaustive — a free-running pass for shared state reached without a shard lock, which the cooperative scheduler cannot preempt): 2 / 8 (thorough 2 / 4 / 16) OS threads answer all queries over one shared namespace with the genuine DashMap for 1.2-1.5 s (thorough 6-15 s), every answer compared with the answer given alone. states = cache states of C14-H + scenario configurations, transitions = history steps + schedules executed".into();
     run.assume("DashMap's own lock is trusted; the Shim models it as a reader-preferring RW lock per shard (shared granted unless a writer holds; exclusive needs the shard free) — read from dashmap-6.1.0/src/lock.rs — and is bound to the genuine DashMap by the identical C14-H transition graphs");
     run.assume("scheduling points at lock acquisitions suffice: all shared data is reached only under those locks");
     run.assume("2 and 3 threads explored exhaustively within the preemption bound; 4-16 threads are out of reach of exhaustive exploration");
@@ -853,6 +938,32 @@ pub fn run(tier: Tier) -> i32 {
             }
         });
         run.absorb(l);
+    }
+
+    // ---- C14-T: two namespaces with the same names and different taxonomies alive together
+    if hs.failure.is_none() {
+        let n = queries().len() - EXTRA;
+        let part = Arc::new(partition_extreme(true));
+        match cold_answers_variant(&part) {
+            Err(e) => run.stats.fail("history-panic:two-namespaces", json!({"two_namespaces": [0, 0]}), e),
+            Ok(cold2) => {
+                let differing = (0..n).filter(|&i| cold[i] != cold2[i]).count();
+                run.note("two_namespace_queries_with_different_answers", json!(differing));
+                run.require(differing >= 10, "the variant taxonomy answers too few queries differently");
+                // quick: the second query ranges over the 10-query core
+                let nj = tier.pick(10usize, n);
+                let l = par_for(n * nj, |k, local| {
+                    let (i, j) = (k / nj, k % nj);
+                    local.eval();
+                    local.transitions += 4;
+                    local.count("two-namespace-histories");
+                    if let Err((sig, d)) = two_namespace_case(i, j, &cold, &cold2, &part) {
+                        local.fail(&sig, json!({"two_namespaces": [i, j]}), d);
+                    }
+                });
+                run.absorb(l);
+            }
+        }
     }
 
     // ---- C14-V: volume. After more look-ups than any fixed cache bound one would pick (1100
@@ -985,6 +1096,12 @@ pub fn replay(case: &J) -> Verdict {
             Some(f) => Err((f.sig.clone(), "an answer given under real concurrency differs from the answer given alone".into())),
             None => Ok(()),
         };
+    }
+    if let Some(p) = case["two_namespaces"].as_array() {
+        let (i, j) = (p[0].as_u64().unwrap_or(0) as usize, p[1].as_u64().unwrap_or(0) as usize);
+        let part = Arc::new(partition_extreme(true));
+        let cold2 = cold_answers_variant(&part).map_err(|e| ("history-panic:two-namespaces".to_string(), e))?;
+        return two_namespace_case(i, j, &cold, &cold2, &part);
     }
     let r = RefNs::make(&scenario_rows());
     if let Some(h) = case["history"].as_array() {
